@@ -145,7 +145,7 @@ def same_state(a, b):
         if type(u) is not type(v):
             return False
         if isinstance(u, np.ndarray):
-            if u.shape != v.shape or u.dtype != v.dtype or not np.array_equal(u, v, equal_nan=True):
+            if u.shape != v.shape or u.dtype.newbyteorder("=") != v.dtype.newbyteorder("=") or not np.array_equal(u, v, equal_nan=True):
                 return False
         elif u != v:
             return False
